@@ -75,13 +75,19 @@ type stats = { mutable frames : int; mutable qs : int; mutable events : int; mut
                mutable errlogs : int }
 
 let line_tbl : int array ref = ref [||]
+let crash_txt : string ref = ref ""
 let parse_file (path : string) : Trace.tev list * stats =
   let ic = open_in path in
   let st = { frames = 0; qs = 0; events = 0; lines = 0; sites = []; stall = false; errlogs = 0 } in
   let out = ref [] in
   let linenos = ref [] in
   let push e = out := e :: !out; linenos := st.lines :: !linenos in
-  let inq = ref false and truth = ref [] and subs = ref [] in
+  let inq = ref false and truth = ref [] and subs = ref [] and ents = ref [] and qfinal = ref false in
+  let reqtab : (int, Datatypes.nat) Hashtbl.t = Hashtbl.create 64 in
+  let tok_of (s : string) : Datatypes.nat =
+    if s = "-" then nat_of_int 0
+    else if S.length s > 1 && S.get s 0 = 't' then (match int_of_string_opt (S.sub s 1 (S.length s - 1)) with Some n -> nat_of_int (n + 1) | None -> nat_of_int (100 + other_of s))
+    else nat_of_int (100 + other_of s) in
   (try
     while true do
       let line = input_line ic in
@@ -94,7 +100,12 @@ let parse_file (path : string) : Trace.tev list * stats =
           subs := { Trace.ss_c = conn_of c; Trace.ss_r = rid_of r; Trace.ss_state = nat_of_int (int_of_string state);
                     Trace.ss_direct = nat_of_int (max 0 (int_of_string direct)); Trace.ss_indirect = nat_of_int (max 0 (int_of_string indirect));
                     Trace.ss_isent = nat_of_int (max 0 (int_of_string isent)) } :: !subs
-        | "ENDQ" :: _ -> inq := false; st.qs <- st.qs + 1; push (Trace.TQ (L.rev !truth, L.rev !subs)); truth := []; subs := []
+        | ["SNAPENT"; r; count; mqsub; evict; nsubs; nres] ->
+          ents := { Trace.se_r = rid_of r; Trace.se_count = z_of_int (int_of_string count); Trace.se_mqsub = (mqsub = "true");
+                    Trace.se_evict = (evict = "true"); Trace.se_nsubs = nat_of_int (int_of_string nsubs);
+                    Trace.se_nres = nat_of_int (int_of_string nres) } :: !ents
+        | "ENDQ" :: _ -> inq := false; st.qs <- st.qs + 1;
+          push (Trace.TQ (L.rev !truth, L.rev !subs, L.rev !ents, !qfinal)); truth := []; subs := []; ents := []
         | _ -> ()
       end else begin
         match f with
@@ -117,15 +128,60 @@ let parse_file (path : string) : Trace.tev list * stats =
         | ["EV"; c; r; "unsub"; code] -> st.frames <- st.frames + 1; push (Trace.TEvUnsub (conn_of c, rid_of r, code_of code))
         | ["MQSUB"; "event"; r] -> push (Trace.TMqSub (rid_of r))
         | ["MQUNSUB"; "event"; r] -> push (Trace.TMqUnsub (rid_of r))
+        | ["MQSUB"; "conn"; c] when S.length c > 1 && (S.get c 0 = 'c' || S.get c 0 = 'h') -> push (Trace.TConnSub (conn_of c))
+        | ["MQUNSUB"; "conn"; c] when S.length c > 1 && (S.get c 0 = 'c' || S.get c 0 = 'h') -> push (Trace.TConnUnsub (conn_of c))
+        | ["EVICT"; r] -> push (Trace.TEvict (rid_of r))
+        | ["CONNEV"; c; "token"; tok; _] -> push (Trace.TConnToken (conn_of c, tok_of tok))
+        | ["SYSEV"; "reset"; which; pats] ->
+          let pats = L.map chars_of_string (S.split_on_char ',' (unhex pats)) in
+          let known = Hashtbl.fold (fun n name acc -> (n, name) :: acc) rid_names [] in
+          (* one entry per matching pattern: the gateway runs its callback once for every listed pattern that matches *)
+          let matching = L.concat_map (fun (n, name) ->
+            let conc = (match int_of_string_opt name with Some k -> "test.r" ^ string_of_int k | None -> "") in
+            if conc = "" then [] else
+            L.filter_map (fun p -> if PatternParse.match_model p (chars_of_string conc) then Some (nat_of_int n) else None) pats) known in
+          let res = if which = "resources" || which = "both" then matching else [] in
+          let acc = if which = "access" || which = "both" then matching else [] in
+          push (Trace.TSysReset (res, acc))
+        | ["SCHED"; w] ->
+          let c = if S.length w > 6 && S.sub w 0 5 = "conn:" && (S.get w 5 = 'c' || S.get w 5 = 'h') then Some (conn_of (S.sub w 5 (S.length w - 5))) else None in
+          push (Trace.TSched c)
+        | ["RAWOUT"; c; hx] ->
+          let txt = unhex hx in
+          let leak = ref false in
+          S.iteri (fun i ch -> if ch = '<' && i + 3 < S.length txt && (S.get txt (i+1) = 'c' || S.get txt (i+1) = 'h')
+                                  && S.get txt (i+2) >= '0' && S.get txt (i+2) <= '9' then leak := true) txt;
+          push (Trace.TRawOut (conn_of c, !leak))
+        | "MQREQ" :: n :: typ :: r :: meth :: cid :: tok :: _ ->
+          let t = (match typ with "get" -> Trace.MGet | "access" -> Trace.MAccess | "call" -> Trace.MCall | "auth" -> Trace.MAuth | _ -> Trace.MOtherReq) in
+          let c = if S.length cid > 1 && (S.get cid 0 = 'c' || S.get cid 0 = 'h') then Some (conn_of cid) else None in
+          Hashtbl.replace reqtab (int_of_string n) (rid_of r);
+          push (Trace.TMqReq (nat_of_int (int_of_string n), t, rid_of r, c, tok_of tok, chars_of_string (if meth = "-" then "" else meth)))
+        | "MQRESP" :: n :: rest ->
+          let r = (try Hashtbl.find reqtab (int_of_string n) with Not_found -> nat_of_int 999) in
+          let o = (match rest with
+            | "get" :: c -> (match content_of c with Some d -> Trace.OGet d | None -> Trace.OErr (code_of "?"))
+            | ["access"; g; call] -> Trace.OAccess (g = "1", chars_of_string (unhex call))
+            | ["access"; g] -> Trace.OAccess (g = "1", [])
+            | ["err"; code] -> Trace.OErr (code_of code)
+            | ["resource"; r'] -> Trace.OResource (rid_of r')
+            | _ -> Trace.OResult) in
+          push (Trace.TMqResp (nat_of_int (int_of_string n), r, o))
         | ["MQEV"; r; "change"; kv] -> st.events <- st.events + 1; push (Trace.TMqEv (rid_of r, Trace.SChange (ckv_of kv)))
         | ["MQEV"; r; "add"; idx; v] -> st.events <- st.events + 1; push (Trace.TMqEv (rid_of r, Trace.SAdd (z_of_int (int_of_string idx), cvalue_of v)))
         | ["MQEV"; r; "remove"; idx] -> st.events <- st.events + 1; push (Trace.TMqEv (rid_of r, Trace.SRemove (z_of_int (int_of_string idx))))
         | ["MQEV"; r; "custom"; tag] -> st.events <- st.events + 1; push (Trace.TMqEv (rid_of r, Trace.SCustom (nat_of_int (other_of tag))))
         | ["MQEV"; r; "delete"] -> st.events <- st.events + 1; push (Trace.TMqEv (rid_of r, Trace.SDelete))
         | ["MQEV"; r; "reaccess"] -> st.events <- st.events + 1; push (Trace.TMqEv (rid_of r, Trace.SReaccess))
-        | "Q" :: _ -> inq := true
+        | "Q" :: label :: _ -> inq := true; qfinal := (label = "end")
+        | "Q" :: _ -> inq := true; qfinal := false
+        | ["SITE"; "reset.task"; _; r] -> push (Trace.TResetTask (rid_of r))
+        | ["SITE"; "reset.start"; _; r] -> push (Trace.TResetStart (rid_of r))
+        | ["SITE"; "reset.noop"; _; r] -> push (Trace.TResetNoop (rid_of r))
+        | ["SITE"; "reset.done"; _; r] -> push (Trace.TResetDone (rid_of r))
         | "SITE" :: id :: _ -> st.sites <- id :: st.sites; push Trace.TOther
         | "STALL" :: _ -> st.stall <- true
+        | "CRASH" :: hx :: _ -> st.stall <- false; crash_txt := unhex hx
         | "ERRLOG" :: _ -> st.errlogs <- st.errlogs + 1; push Trace.TOther
         | _ -> push Trace.TOther
       end
@@ -149,10 +205,37 @@ let vkind_name (k : Monitors.vkind) : string * string = match k with
   | Monitors.VBadCount -> ("C08", "count-validation")
   | Monitors.VLedger -> ("C08", "direct-count-differs-from-ledger")
   | Monitors.VUnsubEventNoDirect -> ("C08", "unsubscribe-event-without-direct-subscription")
+  | Monitors.VGetWithoutSub -> ("C09", "get-without-event-subscription")
+  | Monitors.VCountMismatch -> ("C09", "use-count-differs-from-subscribers")
+  | Monitors.VEvictQueue -> ("C09", "eviction-queue-inconsistent")
+  | Monitors.VOrphanSub -> ("C09", "entry-and-event-subscription-differ")
+  | Monitors.VServedUnsubscribed -> ("C09", "served-without-fetch-under-subscription")
+  | Monitors.VNotFreed -> ("C09", "not-freed-when-unused")
+  | Monitors.VConnLeft -> ("C11", "state-left-after-disconnect")
+  | Monitors.VRequestAfterClose -> ("C11", "request-on-behalf-of-closed-connection")
+  | Monitors.VSpuriousRefetch -> ("C12", "refetch-without-matching-reset")
+  | Monitors.VMissedRefetch -> ("C12", "matching-resource-not-refetched")
+
+let akind_name (k : AccessMon.akind) : string * string = match k with
+  | AccessMon.AUngrantedRead -> ("C04", "data-without-valid-get-grant")
+  | AccessMon.AUngrantedCall -> ("C05", "call-without-valid-grant")
+  | AccessMon.AStaleToken -> ("C05", "request-with-stale-token")
+  | AccessMon.AWrongCid -> ("C10", "request-with-other-connection-id")
+  | AccessMon.ACidLeak -> ("C10", "connection-id-in-client-frame")
+  | AccessMon.ANoReaccess -> ("C06", "trigger-without-reaccess")
+  | AccessMon.ANoRevocation -> ("C06", "denial-without-unsubscribe-event")
+  | AccessMon.ADeliveredDuringRecheck -> ("C06", "event-delivered-during-recheck")
 
 let run_traces (files : string list) : unit =
   L.iter (fun path ->
     let (tr, st) = parse_file path in
+    let avs = AccessMon.amonitor tr in
+    L.iter (fun (v : AccessMon.aviol) ->
+      let (p, k) = akind_name v.AccessMon.av_kind in
+      let pos = int_of_nat v.AccessMon.av_pos in
+      let ln = if pos >= 1 && pos <= Array.length !line_tbl then !line_tbl.(pos - 1) else 0 in
+      Printf.printf "VIOL\t%s\t%s\t%s\t%s\t%s\t%d\n" path p k (conn_name (int_of_nat v.AccessMon.av_c))
+        (rid_name (int_of_nat v.AccessMon.av_r)) ln) avs;
     let vs = Monitors.monitor tr in
     L.iter (fun (v : Monitors.viol) ->
       let (p, k) = vkind_name v.Monitors.v_kind in
@@ -161,5 +244,8 @@ let run_traces (files : string list) : unit =
       Printf.printf "VIOL\t%s\t%s\t%s\t%s\t%s\t%d\n" path p k (conn_name (int_of_nat v.Monitors.v_c))
         (rid_name (int_of_nat v.Monitors.v_r)) ln) vs;
     if st.stall then Printf.printf "STALL\t%s\n" path;
+    if !crash_txt <> "" then begin
+      let first = (match S.index_opt !crash_txt '\n' with Some i -> S.sub !crash_txt 0 i | None -> !crash_txt) in
+      Printf.printf "CRASHED\t%s\t%s\n" path first; crash_txt := "" end;
     Printf.printf "TRACE\t%s\t%d\t%d\t%d\t%d\t%d\t%s\n" path (L.length tr) st.frames st.events st.qs (L.length vs)
       (S.concat "," (L.sort_uniq compare st.sites))) files
